@@ -241,8 +241,8 @@ func addParameterMetaInfo(segs []*routeSegment) []*routeSegment {
 			segs[i].ComparePart = RemoveEscapeChar(comparePart)
 		} else {
 			comparePart = segs[i].Const
-			if len(comparePart) > 1 {
-				comparePart = utils.TrimRight(comparePart, slashDelimiterStr)
+			if len(comparePart) > 1 && comparePart[len(comparePart)-1] == slashDelimiter {
+				comparePart = comparePart[:len(comparePart)-1]
 			}
 		}
 	}
